@@ -317,7 +317,12 @@ static int do_utf8(unsigned long long arg) {
         return aws_decode_utf8(input(), &opt);
     }
     size_t chunk = (size_t)arg - 1;
-    struct aws_utf8_decoder *dec = aws_utf8_decoder_new(vh_alloc(), &opt);
+    /* the options are a temporary: gone as soon as the constructor has returned; every third chunked run validates only */
+    struct aws_utf8_decoder_options *tmp = malloc(sizeof(*tmp));
+    *tmp = opt;
+    struct aws_utf8_decoder *dec = aws_utf8_decoder_new(vh_alloc(), (arg % 3 == 0) ? NULL : tmp);
+    memset(tmp, 0xDD, sizeof(*tmp));
+    free(tmp);
     int rc = AWS_OP_SUCCESS;
     for (size_t at = 0; at < in_len && !rc; at += chunk) {
         size_t n = in_len - at < chunk ? in_len - at : chunk;
